@@ -61,11 +61,12 @@ CFG = dict(
          "sends and half-closes) and return-while-receiving (the handler returns nil while its receiver goroutine is parked in RecvMsg; the "
          "caller must get the n pushes, then io.EOF), n in 0..2, two kinds, the receiver stepped first; 1 in 6 of the streams of (B) and (C) "
          "has such a handler (a RecvMsg of the receiver goroutine that fails after the handler returned is not an error); two services x two stream methods of each kind, each with its own handler "
-         "(a wrong-handler dispatch fails the stream); (B) seeded random lock-step schedules over {user step, handler step, deliver c2s, deliver "
+         "(a wrong-handler dispatch fails the stream); (B) 260 (thorough 900; 2000 until round 2, cut to keep the thorough tier under 15 minutes now that half of the cases find quiescence "
+         "by goroutine dumps) seeded random lock-step schedules over {user step, handler step, deliver c2s, deliver "
          "s2c, release}: 1..4 (thorough up to 32) concurrent streams x 3 kinds x counts {0,1,2,5,20} (thorough 50, 200) x caller programs "
          "{send-all-then-receive, ping-pong, concurrent sender + receiver threads, early half-close, receive-only} x handler programs "
          "{echo, burst n, reply-after-EOF, return-before-EOF, recv 1 + burst n; 1 in 8 returning an error status} x a yield placement, "
-         "direct / Proxy / Demux, serialising / by-reference; (C) free-running: sender and receiver goroutines per stream, 2..8 "
+         "direct / Proxy / Demux, serialising / by-reference; (C) free-running (6 configurations x 4 seeds; thorough 10 x 8; 8 resp. 12 rounds of 64 simultaneous opens): sender and receiver goroutines per stream, 2..8 "
          "(thorough 32) streams, GOMAXPROCS 1/4/16, payloads up to 64 KiB; every history judged by spec_c02",
     assumptions=["payload bytes are identified by a 59-bit hash taken at the moment of each observation",
                  "handler and stream are linked by a request-metadata tag (sy-k)",
